@@ -162,6 +162,7 @@ type hist struct {
 	nid   int64
 	open  map[int]*disInt
 	bad   bool
+	stop  bool // end the history after this step (a violation left the model and the gateway apart)
 	modes []bed.HealthMode
 	// modeLog[e] = the /healthz mode changes of stub e with their instants
 	modeLog [][]modeEv
@@ -246,6 +247,57 @@ func (h *hist) waitReady(e int, want bool) bool {
 		return false
 	}
 	return true
+}
+
+// waitUnreadyAfterFailingProbes waits until the endpoint reports not ready after its stub stopped answering /healthz
+// (hang: never answers, the checker's 5 s timeout ends the probe; close: the connection is closed, client-go retries until
+// the same timeout). The wait is not only a watchdog: when the stub has logged at least two probes that were started at
+// least 6 s ago (the probe timeout is 5 s) and at least 11 s have passed since the mode change, no probe has been
+// answered since, and the endpoint STILL reports ready, the statement is contradicted directly ("healthy at the moment
+// it was picked", probe outcomes include timeouts): violation, and the history ends after one more stable burst that
+// shows the traffic still going there.
+func (h *hist) waitUnreadyAfterFailingProbes(e int, since int64, mode bed.HealthMode) bool {
+	ep := h.endpoint(e)
+	if ep == nil {
+		h.fail(fmt.Sprintf("endpoint %d not found", e))
+		return false
+	}
+	lastPoke := bed.Now()
+	deadline := bed.Now() + int64(watchdog)
+	for {
+		if !ep.IsReady() {
+			h.r.Count("unanswered_probe_flips_that_made_the_endpoint_unready", 1)
+			return true
+		}
+		now := bed.Now()
+		old := 0
+		var ages []float64
+		for _, t := range h.stubs[e].Probes() {
+			if t >= since {
+				ages = append(ages, float64(now-t)/1e9)
+				if now-t >= int64(6*time.Second) {
+					old++
+				}
+			}
+		}
+		if old >= 2 && now-since >= int64(11*time.Second) {
+			h.r.Violation("C03/health/still-ready-after-probe-timeouts",
+				fmt.Sprintf("the stub stopped answering /healthz (%s mode) %.1f s ago; %d probes that started more than 6 s ago (probe timeout 5 s) were never answered, no probe was answered since, and the endpoint still reports ready",
+					modeName[mode], float64(now-since)/1e9, old),
+				map[string]interface{}{"history": h.id, "stub": e, "healthz_mode": modeName[mode], "seconds_since_mode_change": float64(now-since) / 1e9, "probe_ages_s": ages, "model": h.m.clone()})
+			h.stop = true
+			return true
+		}
+		if now > deadline {
+			h.fail(fmt.Sprintf("endpoint %d did not report ready=false within the %v watchdog and fewer than 2 timed-out probes were logged", e, watchdog))
+			return false
+		}
+		if now-lastPoke > int64(500*time.Millisecond) {
+			ep.TriggerHealthCheck() // start the next probe as soon as the previous one has given up
+			lastPoke = now
+		}
+		time.Sleep(2 * time.Millisecond)
+	}
 }
 
 func (h *hist) send(g *vkit.Rand, rec *reqRec) {
@@ -422,11 +474,15 @@ func (h *hist) genChange(g *vkit.Rand, allowHang bool, tickerWait bool) *change 
 			after.Belief[e] = healthyMode(nm)
 			old := m.Belief[e]
 			return &change{Kind: "health", Target: e, Detail: modeName[h.modes[e]] + "->" + modeName[nm], after: after, run: func() bool {
+				since := bed.Now()
 				h.setMode(e, nm)
 				if ep := h.endpoint(e); ep != nil {
 					ep.TriggerHealthCheck()
 				}
 				if old != healthyMode(nm) {
+					if nm == bed.HealthHang || nm == bed.HealthClose {
+						return h.waitUnreadyAfterFailingProbes(e, since, nm)
+					}
 					return h.waitReady(e, healthyMode(nm))
 				}
 				return true
@@ -717,6 +773,9 @@ func runHistory(r *vkit.R, id int, g *vkit.Rand, steps int, allowHang, tickerWai
 		h.pokeDisabled()
 		h.stableBurst(g, g.Range(12, 30), s)
 		r.Count("stable_phases", 1)
+		if h.stop {
+			break
+		}
 	}
 	if h.bad {
 		return
@@ -893,6 +952,45 @@ func hungProbeScenario(r *vkit.R, id int, g *vkit.Rand) {
 	h.judge([]string{"stub1 healthz hangs", "disable stub1 while the probe is in flight", "TriggerHealthCheck, wait 6s", "enable stub1 (healthy)"})
 }
 
+// probeTimeoutScenario: two healthy endpoints; the /healthz of one stops being answered (hang, or connection closed);
+// after the probe timeout the endpoint must not be ready and the traffic must go to the other endpoint only.
+func probeTimeoutScenario(r *vkit.R, id int, g *vkit.Rand) {
+	h := newHist(r, id, 2)
+	defer h.close()
+	h.np = 1
+	m := &model{Servers: []int{0, 1}, Disabled: map[int]bool{}, Belief: map[int]bool{0: true, 1: true}, Mode: map[int]string{0: "ok", 1: "ok"}, Subsets: [][]int{nil}}
+	if g.Bool() {
+		m.Subsets[0] = []int{1, 0}
+	}
+	for i := 0; i < 2; i++ {
+		h.setMode(i, bed.HealthOK)
+	}
+	h.m = m
+	if !h.apply(m) || !h.waitReady(0, true) || !h.waitReady(1, true) {
+		return
+	}
+	h.stableBurst(g, 8, 0)
+	nm := bed.HealthHang
+	if id%4 == 3 {
+		nm = bed.HealthClose
+	}
+	since := bed.Now()
+	h.setMode(1, nm)
+	if ep := h.endpoint(1); ep != nil && g.Bool() {
+		ep.TriggerHealthCheck() // otherwise the 5 s ticker finds out
+	}
+	if !h.waitUnreadyAfterFailingProbes(1, since, nm) {
+		return
+	}
+	after := m.clone()
+	after.Belief[1] = false
+	after.Mode[1] = modeName[nm]
+	h.m = after
+	h.stableBurst(g, 16, 1)
+	r.Count("probe_timeout_scenarios", 1)
+	h.judge([]string{"two healthy endpoints", "stub1 /healthz -> " + modeName[nm], "wait until the endpoint is not ready", "stable burst"})
+}
+
 // disableRacingProbes: probe outcomes are being recorded WHILE the disabling spec update is applied. Several goroutines
 // call TriggerHealthCheck on the endpoint without pause (healthy stub, so every probe records "healthy"), the main
 // goroutine alternates Apply(enabled) / Apply(disabled) for a fixed number of iterations. After EVERY disabling sync
@@ -1015,6 +1113,7 @@ func TestCheck(t *testing.T) {
 		steps := tierN(r, 10, 14)
 		hung := tierN(r, 12, 40)
 		racers := tierN(r, 6, 12)
+		timeouts := tierN(r, 4, 16)
 		racerIters := tierN(r, 800, 2000)
 		vkit.Sched.Enable(uint64(r.Seed), 0.02, 0.01, 0.0005)
 		// server-list churn under concurrent picks (see churn_test.go); runs first so that a fatal error shows up early
@@ -1022,8 +1121,14 @@ func TestCheck(t *testing.T) {
 		churnIters := tierN(r, 3000, 20000)
 		r.Parallel(churn, 6, func(i int, g *vkit.Rand) { serverListChurn(r, g, churnIters) })
 		r.Require(r.Counter("churn_picks_concurrent_with_changes") > 1000, "too few picks concurrent with server-list changes")
-		r.Parallel(n+hung+racers, 16, func(i int, g *vkit.Rand) {
+		r.Parallel(n+hung+racers+timeouts, 16, func(i int, g *vkit.Rand) {
 			if p := vkit.Safely(func() {
+				// the scenarios that wait for probe timeouts (5..11 s) start first
+				if i < timeouts {
+					probeTimeoutScenario(r, 100000+i, g)
+					return
+				}
+				i -= timeouts
 				if i >= n+hung {
 					disableRacingProbes(r, i, g, racerIters)
 					return
@@ -1053,6 +1158,7 @@ func TestCheck(t *testing.T) {
 		r.Require(r.Counter("disabled_intervals_judged") >= int64(tierN(r, 40, 500)), "too few disabled intervals judged")
 		r.Require(r.Counter("disabled_triggers") >= int64(tierN(r, 60, 900)), "too few TriggerHealthCheck calls on disabled endpoints")
 		r.Require(r.Counter("hung_probe_scenarios") >= int64(hung*8/10), "too few hung-probe scenarios completed")
+		r.Require(r.Counter("probe_timeout_scenarios") >= int64(timeouts*3/4), "too few probe-timeout scenarios completed")
 		r.Require(r.Counter("racing_disable_iterations") >= int64(racers*racerIters*8/10), "too few disable-while-recording-probe-results iterations")
 		r.Require(r.Counter("partially_failing_updates") >= int64(tierN(r, 10, 150)), "too few partially failing updates (server removed + unbuildable server added)")
 	})
